@@ -70,14 +70,24 @@ PROPS["C18"] = {
 }
 
 PROPS["C15"] = {
-    "modules": ["TaffyVerif.Props.C15", "TaffyVerif.Props.C15Pass", "TaffyVerif.Props.C02"],
+    "modules": ["TaffyVerif.Props.C15", "TaffyVerif.Props.C15Pass", "TaffyVerif.Props.C02", "TaffyVerif.Props.C15Eval"],
     "theorems": [
         "C15.facts", "Dirty.markDirty_spec", "C15.step_preserves_K", "C15.K_reachable", "C15.I_reachable",
         "C15.mutation_dirties_exactly", "C15.ancestors_dirty", "C15.already_dirty_noop",
         "C15Pass.visit_good", "C15Pass.pass_cleans", "C15Pass.Clean_not_dirty", "C15Pass.hit_is_identity",
         "C02.hit_until_displaced_final", "C02.flag_agrees",
+        # second pass on the tree-level evaluator with the real cache (Props/C15Eval.lean)
+        "C15Eval.root_key_deterministic", "C15Eval.root_pass_logs_root_key", "C15Eval.second_pass_hits",
+        "C15Eval.second_pass_hits_plain", "C15Eval.second_pass_root_hit", "C15Eval.repeated_passes",
+        "C15Eval.second_pass_reevaluates_root", "C15Eval.hidden_root_pass", "C15Eval.real_dispatch_none",
+        "C15Eval.computeLayout_is_round_step", "C15Eval.second_compute_layout", "C15Eval.selfCompatible_rat",
+        "C15Eval.second_pass_hits_rat", "C15Eval.second_pass_no_measure_all_trees",
+        "C15Eval.second_pass_identity_all_trees", "C15Eval.second_compute_layout_all_trees",
+        "C15Eval.hidden_root_second_pass_rat", "C15Eval.driver_layoutRoot_eq", "C15Eval.exG_first_pass_counts",
+        "C15Eval.realCache_get_store", "C15Eval.eval_hit", "C15Eval.eval_then_get", "C15Eval.eval_twice",
+        "C15Eval.computeRootLayout_twice", "C15Eval.computeLayoutWithMeasure_twice",
     ],
-    "harness": "C15", "driver": "C15", "monitor": False,
+    "harness": "C15", "driver": "C15", "monitor": False, "extra_ties": [("EVAL", "EVAL")], "extra_tie_cases": 4000,
     "rule": "random histories (4–33 ops) of every TaffyTree mutator (new_leaf[_with_context], set_style incl. display:none "
             "toggles, set_node_context, add/insert/replace child, remove_child_at_index, remove_children_range, set_children "
             "with reparenting, remove, mark_dirty) and layout passes from parentless nodes with two available spaces, half of the "
@@ -96,10 +106,14 @@ PROPS["C15"] = {
     ],
     "assumptions": ["mark_dirty's recursion is modelled with fuel (next+1); running out of fuel is an explicit outcome, "
                     "never observed; in a forest it cannot happen"],
-    "undischarged": ["second_pass_no_measure is the conjunction of C02.hit_until_displaced_final (the root's final entry "
-                     "is hit by the same key) and C15Pass.hit_is_identity (a hit visits nothing); that compute_root_layout "
-                     "derives the same key from an unchanged style and available space is checked on the implementation "
-                     "(oracle sig:c15-second-pass-measures), not proved"],
+    "undischarged": ["second pass: proved on the tree-level evaluator with the real cache model for every tree, state, dispatch "
+                     "and algorithms (C15Eval.second_pass_no_measure_all_trees at Rat, unconditional; C15Eval.second_pass_hits for "
+                     "every Num instance under C02's self-compatibility of the root key, which is the exact condition: "
+                     "C15Eval.second_pass_reevaluates_root). At f32 the condition fails for a NaN / infinite available space or a "
+                     "NaN known dimension: AvailableSpace::Definite(f32::INFINITY) makes every pass call the root's measure "
+                     "function again (model #eval and real code agree; outside the property's finite inputs). What is not proved: "
+                     "the link between the dirty-flag models (Model/Dirty*.lean) and the evaluator's caches; it is checked on the "
+                     "implementation (oracle sig:c15-second-pass-measures)"],
     "level_text": "Theorems: every mutator (with the mark_dirty call extracted from the source) preserves the invariant K, which "
                   "implies that a dirty node's parent is dirty or display:none — the fact that makes mark_dirty's early exit "
                   "sound — for every history; mark_dirty dirties the target and all ancestors up to the first display:none one, "
